@@ -166,6 +166,9 @@ def main(argv):
     }
     os.makedirs(os.path.join(core.VERIF_DIR, "evidence"), exist_ok=True)
     evp = os.path.join(core.VERIF_DIR, "evidence", "%s.json" % pid)
+    if core.REPO != "/repo":
+        # a run against a scratch copy (mutant / seeded change) must not overwrite the evidence of the real tree
+        evp = os.path.join(os.environ.get("VERIF_TMP", "/var/tmp"), "verif-scratch-evidence-%s.json" % pid)
     with open(evp + ".tmp", "w") as f:
         json.dump(ev, f, indent=1, sort_keys=True, default=repr)
     os.replace(evp + ".tmp", evp)
